@@ -211,6 +211,23 @@ func TestC09(t *testing.T) {
 	for _, n := range []int{1, 2, 3, 19, 20, 21, 100, 254} {
 		blockingCaseHS(t, r, uint8(n), 1500*time.Millisecond)
 	}
+	// a SYN with another window (an earlier connection attempt) in front of the client's own: both
+	// ends must end up with the window of the SYN that the handshake completed on
+	for _, n := range []int{1, 2, 3, 19, 21, 100} {
+		for _, stale := range []string{"0107", "0114", "01fe"} {
+			sc := &HsScenario{N: uint8(n), Stale: [2][]string{{stale}, nil}}
+			res := RunHs(t, sc)
+			r.Case(fmt.Sprintf("stale-syn:%d:%s", n, stale), true, "handshake-stale-syn")
+			if res.Panic != "" {
+				r.Violate("C09/run-failed", res.Panic, sc)
+				continue
+			}
+			if res.SrvConn && res.CliConn && (res.SrvN != n || res.CliN != n) {
+				r.Violate("C09/sequence-space", fmt.Sprintf("a stale SYN %s preceded the client's SYN(%d): both ends entered the data phase, client with window %d, server with window %d",
+					stale, n, res.CliN, res.SrvN), sc)
+			}
+		}
+	}
 	// window discipline under faults: the C01 scenario family, replayed
 	// through the model (a new packet must find room in the model's window)
 	scs := c01Scenarios()
